@@ -53,6 +53,8 @@ def run(rec, cfg):
         if root is None:
             continue
         rec.arm("start:" + src)
+        if rng.random() < 0.5:
+            D.inplace_chain(rec, root, use, rng, steps=rng.randint(2, 6), big=big)
         frontier = [root]
         for depth in range(3):
             nxt = []
